@@ -566,7 +566,44 @@ def load_builders(path, root=None):
             if fn.get("_mods") and any(x.startswith("{") for x in fn["_mods"]):
                 continue  # nested fns (extern callbacks)
             out[key] = b
+    splice_emitters(out)
     return out
+
+
+_NOT_EMITTERS = ("load_imm", "ensure_callee_regs_saved", "finalize", "init", "new", "prepare_stack", "push_stack")
+
+
+def splice_emitters(builders):
+    """a private helper that only emits instructions on the registers it is handed (`self.spread_nan(out_reg)`) is part
+    of every clause that calls it: its instructions are spliced in at the call, with its register parameters renamed
+    to the caller's arguments, so that every rule reads the clause as it is emitted"""
+    import copy as _copy
+
+    for b in list(builders.values()):
+        added = False
+        for c in A.find(b.fn["body"], "MethodCall"):
+            m = c["method"]
+            h = builders.get(m)
+            if h is None or h is b or A.ident(A.strip(c["recv"])) != "self":
+                continue
+            if m.startswith("build_") or m.startswith("call_fn") or m in _NOT_EMITTERS:
+                continue
+            if not h.blocks or h.helper_calls or not h.params or any(ty != "u8" for _n, ty in h.params) or len(h.params) != len(c["args"]):
+                continue
+            args = [A.ident(A.strip(a)) for a in c["args"]]
+            if any(a is None for a in args):
+                continue
+            ren = {"T:%s" % pn: "T:%s" % an for (pn, _ty), an in zip(h.params, args)}
+            ins = _copy.deepcopy(flat_ins(h))
+            for x in ins:
+                x.ln = c["ln"]
+                for o in x.ops:
+                    if getattr(o, "kind", None) == "vec" and o.name in ren:
+                        o.name = ren[o.name]
+            b.blocks.append(({"k": "Macro", "name": "dynasm", "ln": c["ln"], "c": c.get("c", 0), "_spliced": m}, None, ins))
+            added = True
+        if added:
+            b.blocks.sort(key=lambda blk: (blk[0].get("ln", 0), blk[0].get("c", 0)))
 
 
 def flat_ins(b):
